@@ -9,6 +9,7 @@ import (
 	"math/rand/v2"
 	"os"
 	"path/filepath"
+	"strings"
 	"sync"
 	"testing"
 	"time"
@@ -136,6 +137,7 @@ func c19Run(t *testing.T, s *sim.Scn) *sim.Outcome {
 	wrong := false
 	doExport := false
 	inPlace := false
+	reformatted := false
 	what := "pristine file"
 	for _, op := range s.Ops {
 		switch op.K {
@@ -199,6 +201,23 @@ func c19Run(t *testing.T, s *sim.Scn) *sim.Outcome {
 		case "export":
 			doExport = true
 			inPlace = op.A%2 == 1
+		case "reformat":
+			// the same key file written by another tool: indented and/or with an additional (ignored) field; it is
+			// longer than what the package writes
+			var m map[string]json.RawMessage
+			if json.Unmarshal(file, &m) == nil {
+				if op.A%3 != 0 {
+					m["comment"] = json.RawMessage(`"` + strings.Repeat("x", 40+int(op.B%200)) + `"`)
+				}
+				if op.A%3 != 1 {
+					file, _ = json.MarshalIndent(m, "", "    ")
+				} else {
+					file, _ = json.Marshal(m)
+				}
+				reformatted = true
+				what = "key file re-encoded by another tool (indented / extra field)"
+				o.Count("reformatted-files", 1)
+			}
 		}
 	}
 	dir, err := os.MkdirTemp("", "verif-c19-")
@@ -291,7 +310,7 @@ func c19Run(t *testing.T, s *sim.Scn) *sim.Outcome {
 	if !verify(dir, usePass, what) {
 		return o
 	}
-	if doExport && !wrong && len(s.Ops) == 1 {
+	if doExport && !wrong && (len(s.Ops) == 1 || (reformatted && len(s.Ops) == 2)) {
 		raw, err := filesigner.ExportPrivateKey(dir, append([]byte(nil), pass...))
 		if err != nil {
 			o.Fail("C19/export-failed", "", 0, err.Error(), "export of a pristine file with the right passphrase succeeds")
@@ -357,6 +376,11 @@ func c19Enumerate(tier string, run func(*sim.Scn) *sim.Outcome) string {
 			// every variant: the undamaged file loads with its passphrase (and round-trips through export/import),
 			// and with no other passphrase
 			scns = append(scns, &sim.Scn{Cfg: cfg(), Ops: []sim.Op{{K: "export"}}}, &sim.Scn{Cfg: cfg(), Ops: []sim.Op{{K: "export", A: 1}}})
+			for rf := int64(0); rf < 3; rf++ {
+				// a longer predecessor file (same key, other encoding), then export and import in place / elsewhere
+				scns = append(scns, &sim.Scn{Cfg: cfg(), Ops: []sim.Op{{K: "reformat", A: rf, B: pass * 37}, {K: "export", A: 1}}},
+					&sim.Scn{Cfg: cfg(), Ops: []sim.Op{{K: "reformat", A: rf, B: pass * 37}, {K: "export"}}})
+			}
 			for w := int64(0); w < c19Classes; w++ {
 				scns = append(scns, &sim.Scn{Cfg: cfg(), Ops: []sim.Op{{K: "wrongpass", A: w}}})
 			}
